@@ -144,7 +144,8 @@ def run_groups(pid, groups, tier, repo, scratch, seed):
     n_playback = 0
     for g in groups:
         G = kgroups.GROUPS[g]
-        hs = [h for h in G['harnesses'] if tier == 'thorough' or h.get('tier', 'quick') == 'quick']
+        hs = [h for h in G['harnesses'] if (tier == 'thorough' or h.get('tier', 'quick') == 'quick')
+              and (pid in h.get('props', [pid]) or pid == 'ALL')]
         if not hs:
             continue
         names = [G['module'] + '::' + h['name'] for h in hs]
@@ -186,8 +187,15 @@ def run_groups(pid, groups, tier, repo, scratch, seed):
                     rec['status'] = 'inconclusive'
                     rec['reason'] = 'cbmc did not finish (memory/time limit?)'
                 if rec['status'] == 'failed':
-                    # the harness decides `pid` only if tagged with it
-                    if pid not in rec['property_tags']:
+                    # assertion messages may start with the property ids they encode ("C04,C03: ...");
+                    # checks without such a prefix (CBMC built-ins) count for all tags of the harness
+                    rel = []
+                    for c in rec.get('failed_checks', []):
+                        mm = re.match(r'^"?((?:C\d\d,?)+):', c)
+                        if mm is None or pid in mm.group(1).split(',') or pid == 'ALL':
+                            rel.append(c)
+                    if pid not in rec['property_tags'] and pid != 'ALL' or not rel:
+                        rec['other_failed_checks'] = rec.get('failed_checks')
                         rec['status'] = 'ok-other'
                     elif n_playback < 2:
                         n_playback += 1
